@@ -6,17 +6,34 @@ From Verif Require Import Base.Hex Base.Verdict Model.PluginMsg.
 Import ListNotations.
 Open Scope N_scope.
 
-Record case := mk { c_h : handler; c_env : env; c_msg : msg; observed : outcome }.
+Inductive case :=
+| mk (c_h : handler) (c_env : env) (c_msg : msg) (observed : outcome)
+    (* one packet handed to a fresh handler *)
+| mkHist (c_h : handler) (c_env : env) (c_msgs : list msg) (observed : list hobs).
+    (* 2..4 packets back to back through the SAME handler instance on registered channels; the
+       PluginMessageEvent subscriber of each blocks until the next packet has been handled *)
 
-Definition judge (c : case) : verdict :=
-  let o := observed c in
-  let i := impl_handle (c_h c) (c_env c) (c_msg c) in
-  let s := spec_handle (c_h c) (c_env c) (c_msg c) in
-  if negb (holds_P (c_h c) (c_env c) (c_msg c) o) then
+Definition judge_one (h : handler) (e : env) (m : msg) (o : outcome) : verdict :=
+  let i := impl_handle h e m in
+  let s := spec_handle h e m in
+  if negb (holds_P h e m o) then
     (if beq_outcome o i then
-       (if trigger1 (c_h c) (c_env c) (c_msg c) then VKnown 1
-        else if trigger2 (c_h c) (c_env c) (c_msg c) then VKnown 2
+       (if trigger1 h e m then VKnown 1
+        else if trigger2 h e m then VKnown 2
         else VViolation)
      else VViolation)
   else if beq_outcome o s || beq_outcome o i then VOk
   else VMismatch.
+
+(* history: per message, event data at start = event data at the end = that message's body, and the
+   forwarded copy is that message *)
+Definition judge_hist (h : handler) (e : env) (ms : list msg) (obs : list hobs) : verdict :=
+  if hist_all (spec_history h e ms) obs then VOk
+  else if hist_all (impl_history h e ms) obs && forallb (trigger2 h e) ms then VKnown 2
+  else VViolation.
+
+Definition judge (c : case) : verdict :=
+  match c with
+  | mk h e m o => judge_one h e m o
+  | mkHist h e ms obs => judge_hist h e ms obs
+  end.
